@@ -428,6 +428,25 @@ class Env:
     def p_Pin__into_inner(s, M, st, th, ci, a): return s.ret(st, a[0].f[0])
     def d_Pin(s, M, st, th, v): return None
 
+    # std::panic::catch_unwind(f): run f; a panic that unwinds up to here is stopped and becomes Err(payload)
+    def p___catch_unwind(s, M, st, th, ci, a):
+        f = a[0]
+        if isinstance(f, Agg) and f.ty == 'AssertUnwindSafe': f = f.f[0]
+        M.push_k(th, 'env', 'catch_unwind', ())
+        r = M.call_value(st, th, f, [])
+        return [('push', st)] if r is None else [('raw', r)]
+    p_panic__catch_unwind = p___catch_unwind
+    def k_catch_unwind(s, M, st, th, fr, why, rv, data):
+        th.stack.pop()
+        if why == 'unwind':
+            th.panicking = False; st.logev('caught', th.name)
+            return [('ret', st, err(Agg('PanicPayload', [])))]
+        return [('ret', st, ok(rv))]
+    def p___resume_unwind(s, M, st, th, ci, a): return [('panic', st, 'resume_unwind', 'user')]
+    p_panic__resume_unwind = p___resume_unwind
+    def d_AssertUnwindSafe(s, M, st, th, v): return None
+    def d_PanicPayload(s, M, st, th, v): return True
+
     def p___panicking(s, M, st, th, ci, a): return s.ret(st, bool(th.panicking))       # std::thread::panicking
     p_thread__panicking = p___panicking
     def p_mem__forget(s, M, st, th, ci, a): return s.ret(st, UNIT)
@@ -879,6 +898,9 @@ class Env:
     p_Vec__get = p_VecDeque__get
     p_Vec__get_mut = p_VecDeque__get
 
+    def p_Vec__shrink_to(s, M, st, th, ci, a): return s.ret(st, UNIT)
+    p_VecDeque__shrink_to = p_Vec__shrink_to
+
     def t_IndexMut__index_mut(s, M, st, th, ci, a):
         v = s.tgt(M, st, a[0]); i = a[1]
         if not (isinstance(v, Agg) and v.ty in ('Vec', 'VecDeque')): return None
@@ -1120,3 +1142,8 @@ def strip_outer(t):
     t = t.strip()
     i = t.find('<')
     return t[i + 1:-1] if i >= 0 and t.endswith('>') else t
+
+
+# slice methods reached through Deref (core::slice::<impl [T]>::m): a slice reference is the reference to its Vec / VecDeque / array
+for _m in ('get', 'get_mut', 'len', 'is_empty', 'iter', 'iter_mut', 'first', 'first_mut', 'last', 'last_mut', 'swap'):
+    setattr(Env, 'p_slice__' + _m, getattr(Env, 'p_Vec__' + _m))
